@@ -61,6 +61,9 @@ OpsQuick == OneOps \cup RangeOps \cup StrOps \cup CPOps \cup {File(1), File(2), 
 \* named source, come back) - enumerated exhaustively by CharMap_Gen3p.cfg / CharMap_Gen4p.cfg
 OpsPages == {One(C(97), C(65)), One(N(98), N(1)), Reset, File(1), CP1(nAL), CP1(nST), CP1(nZe), CP2(nZE, nST), CP2(nAL, nZE),
              CP2(nZE, nAl), Save, Restore}
+\* the shortest alphabet on which a wrong copy source and a RESTORE without effect are visible (four statements: SAVE,
+\* switch, edit, RESTORE resp. switch, edit, create from a named source) - CharMap_Gen4s.cfg, exhaustive in the quick tier
+OpsStack == {One(C(97), C(65)), CP1(nAL), CP1(nST), CP2(nZE, nST), Save, Restore}
 CapOps == {Cap(TRUE, 97), Cap(FALSE, 97), Cap(TRUE, 98), Cap(FALSE, 65)}
 OpsGen == OpsQuick \cup CapOps
 
